@@ -53,15 +53,16 @@ class Kernel:
         it.raii['std::lock_guard<'] = (self._lg_ctor, self._lg_dtor)
         it.raii['std::unique_lock<'] = (self._ul_ctor, self._ul_dtor)
         it.hooks.update({'mutex::lock': self.h_lock, 'mutex::unlock': self.h_unlock, 'unique_lock::unlock': self.h_ul_unlock, 'unique_lock::lock': self.h_ul_lock,
+                         'mutex::try_lock': self.h_try_lock, 'condition_variable::wait_for': self.h_wait_for, 'thread::swap': self.h_thread_swap,
                          'condition_variable::wait': self.h_wait, 'condition_variable::notify_one': self.h_notify_one, 'condition_variable::notify_all': self.h_notify_all,
                          'thread::join': self.h_join, 'thread::joinable': self.h_joinable, 'thread::detach': self.h_detach, 'get_id': lambda it, f, st, a: self.current.tid})
 
     # ---- choices
-    def choose(self, kind, options, cur_ok):
-        """pick one of `options` (thread ids, ascending); the default keeps the current thread going when it can, else takes the lowest id"""
+    def choose(self, kind, options, cur_ok, first=None):
+        """pick one of `options` (thread ids); the default keeps the current thread going when it can, else takes `first` (the lowest runnable id)"""
         if len(options) == 1:
             return options[0]
-        default = self.current.tid if (cur_ok and self.current.tid in options) else options[0]
+        default = self.current.tid if (cur_ok and self.current.tid in options) else (first if first is not None else options[0])
         if self.pos < len(self.schedule):
             c = self.schedule[self.pos]
             if c not in options:
@@ -75,6 +76,10 @@ class Kernel:
     def runnable(self):
         return [t.tid for t in self.threads if not t.done and t.waiting is None]
 
+    def sleepers(self):
+        """threads asleep in a timed wait: the schedule may let their time-out fire at any scheduling point"""
+        return [t.tid for t in self.threads if not t.done and t.waiting is not None and t.waiting[0] == 'cv' and getattr(t, 'timed', False)]
+
     def reschedule(self, kind='switch'):
         """a scheduling point reached by the running thread: somebody runnable goes on (maybe the same thread)"""
         me = self.current
@@ -83,6 +88,8 @@ class Kernel:
         if not opts and main.waiting is not None and main.waiting[0] == 'gate' and not main.done:
             main.waiting = None         # everybody else has come to rest: the parked main thread looks at its condition again
             opts = [0]
+        real = list(opts)
+        opts = real + [x for x in self.sleepers() if x not in real]
         if not opts:
             self.deadlock = 'no thread can go on: %s' % '; '.join('%s waits for %s' % (t.name, self.describe_wait(t)) for t in self.threads if not t.done)
             if me.tid == 0:
@@ -91,9 +98,15 @@ class Kernel:
             self.threads[0].waiting = None
             self._handoff(me, self.threads[0])
             return
-        nxt = self.choose(kind, opts, me.waiting is None and not me.done)
+        nxt = self.choose(kind, opts, me.waiting is None and not me.done, first=(real[0] if real else opts[0]))
+        t = self.threads[nxt]
+        if t.waiting is not None:       # a timed sleeper was chosen: its time-out fires
+            if t.tid in self.cvs.get(t.waiting[1], []):
+                self.cvs[t.waiting[1]].remove(t.tid)
+            t.waiting = None
+            t.timed_out = True
         if nxt != me.tid:
-            self._handoff(me, self.threads[nxt])
+            self._handoff(me, t)
 
     def describe_wait(self, t):
         w = t.waiting
@@ -237,6 +250,24 @@ class Kernel:
     def h_unlock(self, it, f, st, a):
         self._unlock(self._mutex_of(it.cur_obj, f, st), f, st)
 
+    def h_try_lock(self, it, f, st, a):
+        m = self._mutex_of(it.cur_obj, f, st)
+        self.reschedule('try-lock')
+        if self.mutexes.get(id(m)) is not None:
+            return 0
+        self.mutexes[id(m)] = self.current.tid
+        if self.on_acquire is not None:
+            self.on_acquire(self.current.tid)
+        return 1
+
+    def h_thread_swap(self, it, f, st, a):
+        x, y = it.record_of(it.cur_obj), it.record_of(a[0])
+        if x is None or y is None:
+            raise AnalysisBroken('%s: swap of thread objects the replay does not hold (%s)' % (f.short, f.loc(st['i'])))
+        for k_ in ('mthread', 'detached'):
+            x[k_], y[k_] = y.get(k_), x.get(k_)
+        return None
+
     def _lg_ctor(self, it, f, st, args):
         m = self._mutex_of(args[0], f, st)
         self._lock(m, f, st)
@@ -290,6 +321,44 @@ class Kernel:
             lk['owns'] = 1
             if pred is None:
                 return None
+
+    def h_wait_for(self, it, f, st, a):
+        """wait_for(lock, duration[, predicate]): as wait, and the time-out may fire whenever the thread would otherwise sleep — a choice of the schedule"""
+        cv = it.record_of(it.cur_obj)
+        lk = it.record_of(a[0])
+        pred = a[2] if len(a) > 2 else None
+        me = self.current
+        while True:
+            if pred is not None and it.invoke(f, st, pred, []):
+                return 1
+            self.cvs.setdefault(id(cv), []).append(me.tid)
+            me.waiting = ('cv', id(cv))
+            me.timed = True
+            me.timed_out = False
+            lk['owns'] = 0
+            self.mutexes[id(lk['m'])] = None
+            for t in self.threads:
+                if t.waiting == ('mutex', id(lk['m'])):
+                    t.waiting = None
+            self.reschedule('cv-wait')
+            me.timed = False
+            self._lock(lk['m'], f, st)
+            lk['owns'] = 1
+            if me.timed_out:
+                return int(bool(it.invoke(f, st, pred, []))) if pred is not None else 0
+            if pred is None:
+                return 1
+
+    def choose_flag(self, kind, default=0):
+        if self.pos < len(self.schedule):
+            c = self.schedule[self.pos]
+            if c not in (0, 1):
+                raise AnalysisBroken('schedule replay diverged (flag choice %d: %s)' % (self.pos, c))
+        else:
+            c = default
+        self.pos += 1
+        self.choices.append((kind, (0, 1), c, default))
+        return c
 
     def h_notify_one(self, it, f, st, a):
         cv = it.record_of(it.cur_obj)
